@@ -313,6 +313,8 @@ Error BaseAssembler::embed_label(const Label& label, size_t data_size) {
 
     Fixup* fixup = _code->new_fixup(le, _section->section_id(), offset(), 0, of);
     if (ASMJIT_UNLIKELY(!fixup)) {
+      // Don't leave a half-initialized relocation behind - it would make `relocate_to_base()` fail later.
+      (void)_code->_relocations.pop();
       return report_error(make_error(Error::kOutOfMemory));
     }
 
@@ -384,6 +386,8 @@ Error BaseAssembler::embed_label_delta(const Label& label, const Label& base, si
 
     Expression* exp = _code->_arena.new_oneshot<Expression>();
     if (ASMJIT_UNLIKELY(!exp)) {
+      // Don't leave a relocation without its expression behind - `relocate_to_base()` would dereference it.
+      (void)_code->_relocations.pop();
       return report_error(make_error(Error::kOutOfMemory));
     }
 
